@@ -24,3 +24,12 @@ Definition c18_shift_ok (c : N * N * N) : bool :=
 
 Definition c18_mismatches (sl : list (N * N * N * N)) (sh : list (N * N * N)) :=
   (filter (fun c => negb (c18_slider_ok c)) sl, filter (fun c => negb (c18_shift_ok c)) sh).
+
+(** strings: the harness writes FENs as Coq [string] literals (fast to parse); the models use
+    byte lists *)
+From Coq Require Import String Ascii.
+Fixpoint str_of_string (s : string) : list N :=
+  match s with
+  | EmptyString => []
+  | String a r => N_of_ascii a :: str_of_string r
+  end.
